@@ -20,8 +20,10 @@ The back end is an abstract map `(cache id, region, key) ⇀ value` obeying the 
 (`get_or_create` stores what it creates, `invalidate` removes, `set`/`get`); which of the keyword
 arguments select the container ("region") is a parameter `Backend.regionOf` of the model (Beaker: `type`,
 `dir`, …).  The state also carries the *trace*: the back-end calls as a recording `CacheImpl` sees them,
-the execution counter's ticks, and ghost events (which branch a cached wrapper took) that the
-specification monitor in `Spec.lean` reads.
+the execution counter's ticks, and ghost events (which branch a cached wrapper took; for every completed creation
+the section, scope, context and pre-state it ran in) that the specification monitor in `Spec.lean` reads.
+
+State of /repo followed: after ec9a6d2 (`write_inline_def` passes `buffered` on) and b9a6f20 (`BeakerCacheImpl.set`).
 
 Domain: strings for context values, def arguments, keys and values; `cache_timeout` a decimal literal;
 templates render without raising.
@@ -164,7 +166,8 @@ def wrapS (s : Str) : Str := '<' :: s ++ ['>']
 def finish (h : Hdr) (o : Str) : Str := if h.filtered then wrapD o else o
 
 /-- does the callable hand its content back as return value (else it writes it)?  Uncached: iff buffered.
-    Cached: the decorator returns it iff *it* was told `buffered`, which `write_inline_def` never does. -/
+    Cached: the decorator returns it iff *it* was told `buffered`; a module-level callable always tells it, and
+    `write_inline_def` does iff `inlinePassesBuffered` (regenerated; true since /repo ec9a6d2, so: iff buffered). -/
 def returnsValue (h : Hdr) : Bool :=
   if h.cached then h.buffered && (!isInline h.kind || inlinePassesBuffered) else h.buffered
 
@@ -205,14 +208,28 @@ inductive Outcome
 
 abbrev Key (R : Type) := Str × R × Str        -- (cache id, region, key)
 
+/-- store, `cache_enabled` flags and `_def_regions` memos: everything a render's result depends on -/
+structure Snap (R : Type) where
+  store : Key R → Option Str
+  enabled : Nat → Bool
+  regions : Nat → List (Str × Kw)
+
+/-- ghost record of one run of a creation function: which section (header, body), in which scope and render context,
+    from which state (taken when the back end called the creation function) -/
+structure Creation (R : Type) where
+  h : Hdr
+  body : Items
+  env : Env
+  ctx : Env
+  pre : Snap R
+
 inductive Ev (R : Type)
   | call (tid : Nat) (op : BeOp) (cacheId : Str) (key : Str) (kw : Kw)   -- seen by the back end (`tid` is ghost)
   | tick (tag : Str)                                                      -- seen by the execution counter
   | enter (tid : Nat) (fn : Str) (K : Key R) (oc : Outcome)               -- ghost: branch taken by `get_or_create`
   | bypass (tid : Nat) (fn : Str)                                         -- ghost: `cache_enabled` was false
-  | created (tid : Nat) (fn : Str) (K : Key R) (v : Str) (env : Env)      -- ghost: creation function returned `v`, stored
+  | created (tid : Nat) (fn : Str) (K : Key R) (v : Str) (c : Creation R)  -- ghost: creation function returned `v`, stored
   | enabledSet (tid : Nat) (b : Bool)                                     -- ghost: `template.cache_enabled = b`
-  deriving Repr
 
 structure St (R : Type) where
   store : Key R → Option Str
@@ -222,6 +239,9 @@ structure St (R : Type) where
 
 variable {R : Type} [DecidableEq R]
 
+def St.snap (st : St R) : Snap R := { store := st.store, enabled := st.enabled, regions := st.regions }
+/-- a state with that store / flags / memos and an empty trace -/
+def Snap.toSt (s : Snap R) : St R := { store := s.store, enabled := s.enabled, regions := s.regions, trace := [] }
 def St.emit (st : St R) (e : Ev R) : St R := { st with trace := e :: st.trace }
 def St.put (st : St R) (K : Key R) (v : Str) : St R :=
   { st with store := fun K' => if K' = K then some v else st.store K' }
@@ -287,8 +307,10 @@ def run (P : Params R) (env : Env) : Items → St R → Str × St R
         match st.store K with
         | some v => (v, st0.emit (.enter P.tid (fname h) K (.hit v)))
         | none =>
-          let b := run P env' body (st0.emit (.enter P.tid (fname h) K .miss))
-          (finish h b.1, (b.2.put K (finish h b.1)).emit (.created P.tid (fname h) K (finish h b.1) env'))
+          let st1 := st0.emit (.enter P.tid (fname h) K .miss)
+          let b := run P env' body st1
+          (finish h b.1, (b.2.put K (finish h b.1)).emit
+            (.created P.tid (fname h) K (finish h b.1) ⟨h, body, env', P.ctx, st1.snap⟩))
     let r := run P env rest a.2
     (deliver h site a.1 ++ r.1, r.2)
 
